@@ -267,16 +267,26 @@ def run(ctx):
     for _ in range(ctx.share(6000 if ctx.quick else 250000)):
         h, w = rng.randint(0, 4), rng.randint(0, 5)
         kw = rng.choice([{}, {}, {"bg": "blue"}, {"fg": "red", "bold": True}])
+        ctor_args = rng.choice([[], [], [], ["blue"], ["on_red", "bold"], ["green", "on_blue"]]) if not kw else []
         steps = []
         H = h
         for _ in range(rng.randint(1, 6)):
             st = rand_step(rng, H, w)
             H = max(H, st["r1"])
             steps.append(st)
-        run_case(ctx, {"shape": [h, w], "ctor_kwargs": kw, "steps": steps})
+        run_case(ctx, {"shape": [h, w], "ctor_kwargs": kw, "ctor_args": ctor_args, "steps": steps})
         ctx.count("histories")
+    recent_texts = ["ab", "status"]
     for _ in range(ctx.share(800 if ctx.quick else 40000)):
         rows = [rand_row(rng, rng.randint(0, 5), kinds="both") for _ in range(rng.randint(0, 4))]
+        # the same text now and then as a plain str and as a FmtStr (styled or not), within one
+        # call and across calls
+        for _ in range(rng.randint(0, 2)):
+            t = rng.choice(recent_texts)
+            rows.insert(rng.randint(0, len(rows)), rng.choice([t, [[t, {}]], [[t, dict(rng.choice(obs.PALETTE))]]]))
+        for r in rows:
+            if isinstance(r, str) and r and len(recent_texts) < 12:
+                recent_texts.append(r)
         width = rng.choice([None, None, rng.randint(0, 6)])
         kw = rng.choice([{}, {}, {"bg": 44}, {"fg": 31, "underline": True}])
         run_case(ctx, {"kind": "fsarray", "rows": rows, "width": width, "kwargs": kw})
